@@ -40,7 +40,8 @@ FMonInit(h) ==
    cf |-> [s \in 1..h.n |-> 0],                     \* consecutive failing contacts (reset by an answered contact)
    out |-> [s \in 1..h.n |-> 0],                    \* age since eviction (meaningful while s \notin rot)
    incall |-> FALSE, keys |-> <<>>, rot0 |-> {},    \* rot0: rotation used for routing in this call
-   touched |-> {}, raised |-> {}, routed |-> FALSE]
+   touched |-> {}, raised |-> {}, routed |-> FALSE,
+   answered |-> {}]                                 \* <<server, key>> contacts of this call that were answered
 
 Bump(h, a, d) == IF a + d > Cap(h) THEN Cap(h) ELSE a + d
 
@@ -57,6 +58,7 @@ FMonClauses(m, ev) ==
             <<"C13-not-evicted-by-a-single-failure-when-retries-are-configured", h.ra > 0 => m.cf[ev.s] >= 2>> >>
     [] ev.e = "contact" ->
          << <<"contact-inside-a-call", m.incall>>,
+            <<"C13-a-server-that-answered-is-not-sent-the-same-request-again-in-that-call", <<ev.s, ev.k>> \notin m.answered>>,
             <<"C13-call-goes-to-the-server-placement-assigns", ev.s = Owner(h, ev.k, m.rot0)>>,
             <<"C13-at-most-two-contacts-per-retry-timeout-window",
                   (~ev.ok /\ ev.os /\ Len(m.fa[ev.s]) >= 2) => m.fa[ev.s][2] > h.rt>>,
@@ -82,11 +84,12 @@ FMonEffect(m, ev) ==
          [m EXCEPT !.fa = [s \in 1..h.n |-> [i \in DOMAIN m.fa[s] |-> Bump(h, m.fa[s][i], ev.d)]],
                    !.out = [s \in 1..h.n |-> Bump(h, m.out[s], ev.d)]]
     [] ev.e = "call" -> [m EXCEPT !.incall = TRUE, !.keys = ev.keys, !.rot0 = m.rot, !.touched = {}, !.raised = {},
-                                  !.routed = FALSE]
+                                  !.routed = FALSE, !.answered = {}]
     [] ev.e = "add" -> [m EXCEPT !.rot = m.rot \cup {ev.s}, !.rot0 = IF m.routed THEN m.rot0 ELSE m.rot0 \cup {ev.s}]
     [] ev.e = "rm" -> [m EXCEPT !.rot = m.rot \ {ev.s}, !.out = [m.out EXCEPT ![ev.s] = 0], !.routed = TRUE]
     [] ev.e = "contact" ->
          [m EXCEPT !.touched = m.touched \cup {ev.s}, !.routed = TRUE,
+                   !.answered = IF ev.ok THEN m.answered \cup {<<ev.s, ev.k>>} ELSE m.answered,
                    !.raised = IF ev.ok THEN m.raised ELSE m.raised \cup {ev.x},
                    !.cf = [m.cf EXCEPT ![ev.s] = IF ev.ok THEN 0 ELSE IF ~ev.os THEN @ ELSE IF @ < 3 THEN @ + 1 ELSE 3],
                    (* a contact the server ANSWERED -- with a result or with a memcached-level error -- ends the run of   *)
